@@ -941,6 +941,13 @@ SUBS = [
 
 KNOWN_PREDICATES = {}
 
+# thorough tier: coverage-guided campaigns (atheris/libFuzzer mutating the bytes Hypothesis draws from)
+FUZZ = {
+    "subs": ['queries', 'histories', 'gff_blocks'],
+    "targets": ['cogent3.core.annotation_db', 'cogent3.parse.gff', 'cogent3.parse.genbank'],
+    "execs_thorough": 40_000, "jobs_thorough": 4, "execs_quick": 1000, "jobs_quick": 2,
+}
+
 META = {
     "technique": "Hypothesis-generated record sets, query lattices and operation histories against a linear-scan list model; GFF3/GenBank text written by the harness with independent coordinate arithmetic",
     "level_text": "Each run builds about 1 500 databases of the three classes (user-added, GFF3 text, GenBank text) on span lattices where envelopes abut, nest and straddle, asks 8 queries each over the cross-product of optional arguments, window kinds and allow_partial through four query entry points, and replays about 400 histories of merge / subset / copy / serialise operations, comparing record multisets with a plain list model after every step.",
